@@ -62,7 +62,7 @@ func dischargeAll(opts Options, outDir string, obls []*Obligation) []Discharged 
 	ground := make([]string, len(jobs))
 	for i, j := range jobs {
 		scripts[i] = j.o.Script(true)
-		if !j.o.Cover {
+		if !j.o.Cover && os.Getenv("GOVC_NOGROUND") == "" {
 			// stage 1: the quantifier-free relaxation (quantified hypotheses replaced by their instances on the goal's
 			// skolem constants and on the addresses read). It has fewer hypotheses, so unsat there is a proof.
 			if rvc, ng := j.o.RelaxedVCGoal(); !hasQuant(ng) {
